@@ -89,8 +89,29 @@ class C04(HistoryProp):
                 known[e] = []
                 ngfacts[e] = []
                 open_q = [(q, en) for q, en in open_q if en != e]   # their generators stay valid python objects; we simply stop using them
-            elif k == 7:
+            elif k == 7 and src.n(2):
                 ops.append(['atom', e, src.pick(['a', 'b', 'foo', '[]'])])
+            elif k == 7:
+                # meta-calls on atom goals, with and without extra arguments; initialisation idioms on fresh predicates
+                name = src.pick(['r', 'q', 'p', 'nopred'])
+                j = src.n(6)
+                if j == 0:
+                    g = ('f', 'call', (('a', name), ('v', 'M0')))
+                elif j == 1:
+                    g = ('f', 'call', (('a', name), ('v', 'M0'), ('v', 'M1')))
+                elif j == 2:
+                    g = ('f', src.pick(['call', 'once']), (('a', name),))
+                elif j == 3:
+                    g = ('f', 'findall', (('a', 'x'), ('a', name), ('v', 'M2')))
+                elif j == 4:
+                    fresh = src.pick(['init1', 'init2'])
+                    ops.append(['run', e, ('f', 'retractall', (('f', fresh, (('v', 'M3'),)),)), 3])
+                    g = ('f', 'assertz', (('f', fresh, (src.pick(CONSTS[:3]),)),))
+                    known[e] = list(dict.fromkeys(known[e] + [(fresh, 1)]))
+                else:
+                    g = ('f', src.pick(['assertz', 'retract']), (('a', 'flag0'),))
+                    known[e] = list(dict.fromkeys(known[e] + [('flag0', 0)]))
+                ops.append(['run', e, g, 8])
             elif k in (8, 9) and known[e] and len(open_q) < 4:
                 qid += 1
                 name, n = src.pick(known[e])
